@@ -13,6 +13,8 @@ def run(tier):
     # the sum-product message equations of loopy belief propagation, value-level (pv/contracts/fgbp.py)
     from ..contracts import fgbp as FG
     reps.append(deductive.verify_function(FG.ITEM[0], FG.ITEM[1], FG.ITEM[2], hooks=FG.hooks(), prefix='%s::%s[message equations]' % FG.ITEM[:2]))
+    from ..contracts import gbpmsg as GB
+    reps.append(deductive.verify_function(GB.ITEM[0], GB.ITEM[1], GB.ITEM[2], hooks=GB.hooks(), prefix='%s::%s[message equations]' % GB.ITEM[:2]))
     import time
     from ..vc import frames
     from .. import frontend
